@@ -148,7 +148,7 @@ fn ref_utf8_valid(b: &[u8; 4], l: usize) -> bool {
     true
 }
 
-//@ props=C06 tier=quick timeout=1800 mem=13 model=0 name=c06_string_roundtrip_3
+//@ props=C06 tier=quick timeout=1800 mem=12 model=0 name=c06_string_roundtrip_3
 //@ functions=TryFrom<Vec<u8>> for OptionValueString, From<OptionValueString> for Vec<u8>, String::from_utf8
 //@ bounds=every byte string of length 0..3 (symbolic length and bytes)
 //@ what=well-formed UTF-8 (RFC 3629, checked by an independent case table) is accepted and converts back to the same bytes; anything else is rejected with an error
